@@ -18,6 +18,10 @@ pub enum Body {
   Var(u8),        // bound pattern variable #k (by position) + 1000*(arm+1); falls back to Const when position k binds nothing
   Sum,            // sum of all bound pattern variables + 1000*(arm+1)
   Param(u8),      // declared parameter #k + 5000*(arm+1)  (legal in any arm: parameters are in scope)
+  /// the value of `Sum`, with every bound variable read through another evaluator of the interpreter (each threads the arm's environment
+  /// on its own): 0 = inside a matrix literal reduced by a dot product, 1 = as the arguments of a library call, 2 = parenthesised,
+  /// 3 = under a kind annotation
+  Wrap(u8),
 }
 
 #[derive(Clone, Debug, PartialEq, Serialize, Deserialize)]
@@ -57,7 +61,7 @@ pub enum Case {
 }
 
 fn pat_s() -> BoxedStrategy<Pat> { prop_oneof![3 => (0u8..4).prop_map(Pat::Lit), 2 => Just(Pat::Var), 1 => Just(Pat::Wild)].boxed() }
-fn body_s(arity: u8) -> BoxedStrategy<Body> { prop_oneof![3 => Just(Body::Const), 3 => (0..arity).prop_map(Body::Var), 1 => Just(Body::Sum), 2 => (0..arity).prop_map(Body::Param)].boxed() }
+fn body_s(arity: u8) -> BoxedStrategy<Body> { prop_oneof![3 => Just(Body::Const), 3 => (0..arity).prop_map(Body::Var), 1 => Just(Body::Sum), 2 => (0..arity).prop_map(Body::Param), 3 => (0u8..4).prop_map(Body::Wrap)].boxed() }
 fn arm_s(arity: u8) -> BoxedStrategy<Arm> { (proptest::collection::vec(pat_s(), arity as usize), body_s(arity)).prop_map(|(pats, body)| Arm { pats, body }).boxed() }
 
 fn guard_s() -> BoxedStrategy<Guard> { prop_oneof![3 => Just(Guard::None), 3 => (0u8..2, 0u8..4, 0u8..4).prop_map(|(v, c, k)| Guard::VarCmp(v, c, k)), 1 => (0u8..4).prop_map(Guard::VarVar)].boxed() }
@@ -83,7 +87,7 @@ impl Prop for C16 {
         MVal::Vector(_) => prop_oneof![1 => Just(MPat::ArrHead), 1 => Just(MPat::ArrLast), 1 => Just(MPat::ArrEmpty), 2 => Just(MPat::ArrEnds), 2 => Just(MPat::ArrTwoLast), 1 => Just(MPat::ArrOne), 1 => Just(MPat::ArrHeadRest)].boxed(),
         MVal::Enum { with_payload, .. } => { let wp = *with_payload; (0u8..3, pat_s()).prop_map(move |(v, p)| MPat::Variant(v, if wp { Some(p) } else { None })).boxed() }
       };
-      (proptest::collection::vec((pat, guard_s(), prop_oneof![2 => Just(Body::Const), 2 => (0u8..2).prop_map(Body::Var), 1 => Just(Body::Sum)]).prop_map(|(pat, guard, body)| MArm { pat, guard, body }), 1..=5), proptest::bool::weighted(0.85), any::<bool>())
+      (proptest::collection::vec((pat, guard_s(), prop_oneof![2 => Just(Body::Const), 2 => (0u8..2).prop_map(Body::Var), 1 => Just(Body::Sum), 2 => (0u8..4).prop_map(Body::Wrap)]).prop_map(|(pat, guard, body)| MArm { pat, guard, body }), 1..=5), proptest::bool::weighted(0.85), any::<bool>())
         .prop_map(move |(arms, wildcard, shared_names)| Case::Match { val: val.clone(), arms, wildcard, shared_names })
     }).boxed();
     let rec = (0u8..6, 0u8..2, any::<bool>(), 0u32..23, 0u32..13).prop_map(|(which, style, u64k, n, m)| Case::Rec { which, style, u64k, n, m }).boxed();
@@ -102,7 +106,7 @@ impl Prop for C16 {
     out
   }
   fn rule() -> &'static str {
-    "case ∈ {user function with 1-5 match arms (literal / variable / wildcard / tuple patterns; bodies: constant, bound variable, sum, or \
+    "case ∈ {user function with 1-5 match arms (literal / variable / wildcard / tuple patterns; bodies: constant, bound variable, sum, the sum with every variable read inside a matrix literal / a library call / parentheses / a kind annotation, or \
      a *declared parameter*) called with all small arguments and with wrong arity; match expression over a scalar, tuple, vector or enum \
      value with 1-5 arms (literal, variable, tuple, array head/last/empty, enum variant with/without payload patterns, optional guards) \
      with or without the `*` arm; recurrences (factorial, power, fibonacci, gcd, tail-recursive count and sum, in pattern-variable and \
@@ -125,6 +129,12 @@ fn body_text(b: &Body, bound: &[Option<String>], params: &[String], arm: usize) 
   match b {
     Body::Var(k) => match bound.get(*k as usize).and_then(|x| x.clone()) { Some(n) => format!("{} + {}", n, 1000 * (arm + 1)), None => format!("{}", 100 * (arm + 1)) },
     Body::Sum if !names.is_empty() => format!("{} + {}", names.join(" + "), 1000 * (arm + 1)),
+    Body::Wrap(w) if !names.is_empty() => match w % 4 {
+      0 => format!("[{} 0.0] · [{} 1.0] + {}", names.join(" "), names.iter().map(|_| "1.0").collect::<Vec<_>>().join(" "), 1000 * (arm + 1)),
+      1 => format!("{} + {}", names.iter().map(|n| format!("compare/max({}, {})", n, n)).collect::<Vec<_>>().join(" + "), 1000 * (arm + 1)),
+      2 => format!("{} + {}", names.iter().map(|n| format!("({})", n)).collect::<Vec<_>>().join(" + "), 1000 * (arm + 1)),
+      _ => format!("{} + {}", names.iter().map(|n| format!("{}<f64>", n)).collect::<Vec<_>>().join(" + "), 1000 * (arm + 1)),
+    },
     Body::Param(k) if (*k as usize) < params.len() => format!("{} + {}", params[*k as usize], 5000 * (arm + 1)),
     _ => format!("{}", 100 * (arm + 1)),
   }
@@ -133,7 +143,7 @@ fn body_val(b: &Body, bound: &[Option<f64>], params: &[f64], arm: usize) -> f64 
   let vals: Vec<f64> = bound.iter().flatten().cloned().collect();
   match b {
     Body::Var(k) => match bound.get(*k as usize).and_then(|x| *x) { Some(v) => v + 1000.0 * (arm + 1) as f64, None => 100.0 * (arm + 1) as f64 },
-    Body::Sum if !vals.is_empty() => vals.iter().sum::<f64>() + 1000.0 * (arm + 1) as f64,
+    Body::Sum | Body::Wrap(_) if !vals.is_empty() => vals.iter().sum::<f64>() + 1000.0 * (arm + 1) as f64,
     Body::Param(k) if (*k as usize) < params.len() => params[*k as usize] + 5000.0 * (arm + 1) as f64,
     _ => 100.0 * (arm + 1) as f64,
   }
@@ -401,4 +411,4 @@ fn check(c: &Case) -> Verdict {
 }
 
 impl MArm { fn guard_is_none(&self) -> bool { self.guard == Guard::None } }
-fn body_class(b: &Body) -> &'static str { match b { Body::Const => "const", Body::Var(_) => "var", Body::Sum => "sum", Body::Param(_) => "param" } }
+fn body_class(b: &Body) -> &'static str { match b { Body::Const => "const", Body::Var(_) => "var", Body::Sum => "sum", Body::Param(_) => "param", Body::Wrap(0) => "wrap-matrix-literal", Body::Wrap(1) => "wrap-call", Body::Wrap(2) => "wrap-parens", Body::Wrap(_) => "wrap-annotation" } }
